@@ -98,6 +98,24 @@ pub fn check_program(prog: &Program, seed: u64, thorough: bool, rep: &mut Report
         let key = s.run.refs[k].show();
         rep.eval(if nontrivial { Some(&key) } else { None });
         check_term(&mut s, rep, t, k);
+        // and against the expression as the caller wrote it
+        let rb = s.run.refs[k].clone();
+        if closure_size(&mut s.m, t, 1500).is_some() {
+            if let Ok(db) = s.ctx.dfa(&rb) {
+                let probes = s.probe_chars(t);
+                let atoms = s.ctx.atoms().clone();
+                rep.inc("terms_checked_against_construction");
+                for &c in &probes {
+                    let want = !db.is_empty_from(db.step(db.start, atoms.of(c)));
+                    if let Ok(got) = guard(|| s.m.start_char(t, c)) {
+                        if got != want {
+                            s.viol(rep, "start-char", "start-char:vs-construction", format!("start_char of the construction {} (term {}) for {:x} = {} but {} member of its SMT-LIB language starts with that character", short(&rb.show(), 160), term_text(t), c, got, if want { "some" } else { "no" }), k);
+                            break;
+                        }
+                    }
+                }
+            }
+        }
     }
 }
 
